@@ -25,7 +25,7 @@ ValMatch(s, o) ==
                       /\ \A j \in 1..Len(s.e) : ValMatch(s.e[j][1], o.e[j][1]) /\ ValMatch(s.e[j][2], o.e[j][2])
   ELSE IF s.t # o.t THEN FALSE
   ELSE CASE s.t = "real" -> (IF s.s = "inexact" THEN TRUE ELSE s.s = o.s /\ s.i = o.i /\ s.e = o.e)
-         [] s.t = "int" -> s.i = o.i
+         [] s.t = "int" -> s.i = o.i /\ s.e = o.e
          [] s.t = "str" -> s.s = o.s
          [] OTHER -> TRUE            \* nil, function values, closures: the kind is what can be observed
 Unset == [t |-> "unset"]
